@@ -9,6 +9,12 @@ pub mod ir;
 pub mod opt;
 pub mod runtime;
 
+/// Verification hooks (only with `--cfg hpbf_verif`): re-export of crate-private types.
+#[cfg(hpbf_verif)]
+pub mod verif {
+    pub use crate::smallvec::SmallVec;
+}
+
 use std::{fmt::Debug, hash::Hash};
 
 /// Kind of error that might be encountered during the parsing of a Brainfuck
